@@ -56,6 +56,10 @@ func WriteReplay(vdir, prop string, h *Harness, v *Violation) (string, error) {
 		doc.NativeOK = false
 		doc.Why = "harness replaces callees by engine stubs"
 	}
+	if v.RealClock {
+		doc.NativeOK = false
+		doc.Why = "the code under test reads the wall clock (time.Now); the model's clock readings cannot be imposed on a native run"
+	}
 	if h.EnvStepName != "" {
 		doc.NativeOK = false
 		doc.Why = "harness uses an interference step between atomic operations"
